@@ -13,21 +13,27 @@ Definition bytes_of_str (s : str) : list N := map N_of_ascii s.
 Definition as_str (s : sx) : option str := option_map str_of_bytes (as_bytes s).
 Definition sstr (s : str) : sx := SB (bytes_of_str s).
 
-Definition oracle := list (str * (option str * option str * option str * option str * option str)).
+Definition oracle := list (str * (option str * option str * option str * option str * option str * option str)).
 Definition o_get (o : oracle) (x : str) :=
-  match alist_get x o with Some r => r | None => (None, None, None, None, None) end.
-Definition o_float (o : oracle) x := match o_get o x with (a, _, _, _, _) => a end.
-Definition o_tnp (o : oracle) x := match o_get o x with (_, a, _, _, _) => a end.
-Definition o_tfmt (o : oracle) x := match o_get o x with (_, _, a, _, _) => a end.
-Definition o_tpd (o : oracle) x := match o_get o x with (_, _, _, a, _) => a end.
-Definition o_delta (o : oracle) x := match o_get o x with (_, _, _, _, a) => a end.
+  match alist_get x o with Some r => r | None => (None, None, None, None, None, None) end.
+Definition o_float64 (o : oracle) x := match o_get o x with (a, _, _, _, _, _) => a end.
+Definition o_float32 (o : oracle) x := match o_get o x with (_, _, _, _, _, a) => a end.
+Definition o_float (o : oracle) (single : bool) x := if single then o_float32 o x else o_float64 o x.
+Definition o_tnp (o : oracle) x := match o_get o x with (_, a, _, _, _, _) => a end.
+Definition o_tfmt (o : oracle) x := match o_get o x with (_, _, a, _, _, _) => a end.
+Definition o_tpd (o : oracle) x := match o_get o x with (_, _, _, a, _, _) => a end.
+Definition o_delta (o : oracle) x := match o_get o x with (_, _, _, _, a, _) => a end.
 
 (* canonical float text: repr, integral values written with all digits and ".0" *)
 Definition xf_eq_Z (f : str) (z : Z) : bool :=
   str_eqb f (show_Z z ++ s_ ".0")%list || (Z.eqb z 0 && str_eqb f (s_ "-0.0")).
 
 Definition xvalue := value str str str.
-Definition xveqb := veqb str str str str_eqb str_eqb str_eqb xf_eq_Z.
+(* == on the external values: canonical texts are equal, except that NaN != NaN and NaT != NaT
+   (Python sets keep every NaN / NaT object) *)
+Definition xfeqb (a b : str) : bool := negb (str_eqb a (s_ "nan")) && str_eqb a b.
+Definition xteqb (a b : str) : bool := negb (str_eqb a (s_ "NaT")) && str_eqb a b.
+Definition xveqb := veqb str str str xfeqb xteqb xteqb xf_eq_Z.
 (* the harness hands over time values as a pair of texts: iso NUL str *)
 Definition xshow_time_iso (t : str) : str := match split_on Ascii.zero t with a :: _ => a | [] => t end.
 Definition xshow_time_str (t : str) : str := match split_on Ascii.zero t with _ :: b :: _ => b | _ => t end.
@@ -36,10 +42,10 @@ Definition xshow := show str str str (fun f => f) xshow_time_iso xshow_time_str.
 Definition as_opt_str (s : sx) : option (option str) := as_opt as_str s.
 Definition as_oracle (s : sx) : option oracle :=
   as_list_of (fun e => match e with
-                       | SL [x; a; b; c; d; e'] =>
-                         match as_str x, as_opt_str a, as_opt_str b, as_opt_str c, as_opt_str d, as_opt_str e' with
-                         | Some x, Some a, Some b, Some c, Some d, Some e' => Some (x, (a, b, c, d, e'))
-                         | _, _, _, _, _, _ => None
+                       | SL [x; a; b; c; d; e'; f32] =>
+                         match as_str x, as_opt_str a, as_opt_str b, as_opt_str c, as_opt_str d, as_opt_str e', as_opt_str f32 with
+                         | Some x, Some a, Some b, Some c, Some d, Some e', Some f32 => Some (x, (a, b, c, d, e', f32))
+                         | _, _, _, _, _, _, _ => None
                          end
                        | _ => None
                        end) s.
@@ -77,7 +83,7 @@ Definition as_kind (s : sx) : option kind :=
   | SL [SZ 0%Z; sg; bits] => match as_bool sg, as_N bits with Some sg, Some b => Some (KInt sg b) | _, _ => None end
   | SL [SZ 1%Z] => Some KBool
   | SL [SZ 2%Z] => Some KStr
-  | SL [SZ 3%Z] => Some KFloat
+  | SL [SZ 3%Z; single] => option_map KFloat (as_bool single)
   | SL [SZ 4%Z; ns] => option_map KTime (as_bool ns)
   | SL [SZ 5%Z] => Some KCat
   | _ => None
@@ -88,9 +94,9 @@ Section WithOracle.
   Variable o : oracle.
   Definition xparse_with_meta := parse_with_meta str str str (o_float o) (o_tnp o) (o_tfmt o).
   Definition xparse_guess := parse_guess str str str (o_float o) (o_tpd o) (o_delta o).
-  Definition xpath_to_cats := path_to_cats str str str str_eqb str_eqb str_eqb xf_eq_Z (o_float o) (o_tnp o) (o_tfmt o) (o_tpd o) (o_delta o).
-  Definition xpaths_to_cats := paths_to_cats str str str str_eqb str_eqb str_eqb xf_eq_Z (o_float o) (o_tnp o) (o_tfmt o) (o_tpd o) (o_delta o).
-  Definition xread_model := read_model str str str str_eqb str_eqb str_eqb xf_eq_Z (o_float o) (o_tnp o) (o_tfmt o) (o_tpd o) (o_delta o) Z.
+  Definition xpath_to_cats := path_to_cats str str str xfeqb xteqb xteqb xf_eq_Z (o_float o) (o_tnp o) (o_tfmt o) (o_tpd o) (o_delta o).
+  Definition xpaths_to_cats := paths_to_cats str str str xfeqb xteqb xteqb xf_eq_Z (o_float o) (o_tnp o) (o_tfmt o) (o_tpd o) (o_delta o).
+  Definition xread_model := read_model str str str xfeqb xteqb xteqb xf_eq_Z (o_float o) (o_tnp o) (o_tfmt o) (o_tpd o) (o_delta o) Z.
 End WithOracle.
 
 (* (v) = returns v, "ValueError", "Error" *)
@@ -172,7 +178,7 @@ Definition h_write_model (a : list sx) : sx :=
     match as_bool hive, as_list_of as_str names, as_list_of (as_list_of as_row) chunks with
     | Some h, Some names, Some chunks =>
       slist (fun f => SL [sstr (fst f); slist (fun r => SZ (snd r)) (snd f)])
-            (write_model str str str str_eqb str_eqb str_eqb xf_eq_Z (fun f => f) xshow_time_iso xshow_time_str Z h names chunks)
+            (write_model str str str xfeqb xteqb xteqb xf_eq_Z (fun f => f) xshow_time_iso xshow_time_str Z h names chunks)
     | _, _, _ => err "args" end
   | _ => err "arity"
   end.
